@@ -209,6 +209,8 @@ class TransformerRun(object):
         mm = _memo.memo_of(self.f.node)
         if mm is not None and (st is mm[2] or any(st is x for x in mm[3])):
             return
+        if mm is not None and isinstance(st, ast.Assign) and len(st.targets) == 1 and isinstance(st.targets[0], ast.Name) and st.targets[0].id == mm[1]:
+            return      # the key of the memo
         if isinstance(st, ast.Assign) and len(st.targets) == 1:
             t = st.targets[0]
             if isinstance(t, ast.Name):
@@ -712,4 +714,107 @@ def check_interpreter_ownership(ix, rep, rule='R-CONFIG'):
             else:
                 rep.fail(rule, rs.module.rel, rs.qual, 'reset:forwards', 'reset() of the specification can return without self.online_interpreter.reset(): the operators keep their '
                          'history (or, if the interpreter is replaced instead, its settings are lost)', getattr(bad, 'lineno', rs.node.lineno))
+    return n
+
+
+def check_period_reaches_ast(ix, rep, rule='R-FWD'):
+    """the pastifier's horizon and the explainer's bound normaliser read the sampling period from the *ast* (ast.sampling_period,
+    ast.sampling_period_unit), the interpreters from themselves.  set_sampling_period() on the specification has to store its period and unit
+    on the ast on every path -- not only when the object has a particular interpreter -- or the readers of the ast count in another period
+    than the evaluation."""
+    from sa import flow
+    spec = ix.find_class('rtamt.spec.abstract_specification', 'AbstractSpecification')
+    f = spec.methods.get('set_sampling_period')
+    if f is None:
+        raise AnalysisError('AbstractSpecification.set_sampling_period vanished')
+    rep.analysed(f)
+    readers = {}
+    for mod in ix.modules.values():
+        if not (mod.rel.startswith('rtamt/pastifier/') or mod.rel.startswith('rtamt/explanation/')):
+            continue
+        for x in ast.walk(mod.tree):
+            if isinstance(x, ast.Attribute) and x.attr in ('sampling_period', 'sampling_period_unit') and isinstance(x.ctx, ast.Load) \
+                    and ast.unparse(x.value) in ('ast', 'self.ast', 'self.spec', 'spec'):
+                readers.setdefault(x.attr, []).append((mod.rel, x.lineno))
+    if len(readers) < 2:
+        raise AnalysisError('no reader of ast.sampling_period / ast.sampling_period_unit in the pastifier or the explainer any more (anchor moved)')
+    params = [a.arg for a in f.node.args.args[1:]]
+    cfg = flow.CFG(f.node)
+    dom = cfg.dominators()
+    n = 0
+    for attr, want in (('sampling_period', params[0] if params else None), ('sampling_period_unit', params[1] if len(params) > 1 else None)):
+        n += 1
+
+        def stores(st):
+            return isinstance(st, ast.Assign) and any(ast.unparse(t) == 'self.ast.%s' % attr for t in st.targets) and isinstance(st.value, ast.Name) and st.value.id == want
+        bad = None
+        for p in cfg.pred[cfg.exit]:
+            if p in cfg.reachable() and not any(cfg.stmt[d] is not None and stores(cfg.stmt[d]) for d in dom[p]):
+                bad = cfg.stmt[p] if cfg.stmt[p] is not None else f.node
+        slot = 'set_sampling_period=>ast.%s' % attr
+        if bad is None:
+            rep.ok(rule, f.module.rel, f.qual, slot, 'stored on the ast on every path (read at %d sites of the pastifier / explainer)' % len(readers[attr]), f.node.lineno)
+        else:
+            rel, line = readers[attr][0]
+            rep.fail(rule, f.module.rel, f.qual, slot, 'set_sampling_period() can return without `self.ast.%s = %s` (or stores it only for objects with a particular interpreter): %s:%d and %d '
+                     'other sites read the period from the ast and go on with the default 1 s -- the explainer looks at another window than the evaluation, the pastifier delays `next` '
+                     'by the wrong number of samples' % (attr, want, rel, line, len(readers[attr]) - 1), getattr(bad, 'lineno', f.node.lineno))
+    return n
+
+
+def _lossy_conversion(e):
+    """a rendering of a number that keeps only part of it: %-formats and format specs other than %s/%r/{}, round(), int(), float() of a
+    formatted text.  str()/repr() of a float are exact (they round-trip)."""
+    import re as _re
+    for x in ast.walk(e):
+        if isinstance(x, ast.BinOp) and isinstance(x.op, ast.Mod) and isinstance(x.left, ast.Constant) and isinstance(x.left.value, str):
+            for m in _re.finditer(r'%(?:\(\w+\))?[-#0 +]*\d*(?:\.\d+)?[a-zA-Z%]', x.left.value):
+                if m.group(0) not in ('%s', '%r', '%%'):
+                    return 'the %%-format `%s`' % m.group(0)
+        if isinstance(x, ast.JoinedStr):
+            for v in x.values:
+                if isinstance(v, ast.FormattedValue) and v.format_spec is not None and ast.unparse(v.format_spec) not in ("f''", "f's'"):
+                    return 'the format spec %s' % ast.unparse(v.format_spec)
+        if isinstance(x, ast.Call) and isinstance(x.func, ast.Attribute) and x.func.attr == 'format' and isinstance(x.func.value, ast.Constant) and isinstance(x.func.value.value, str):
+            import string
+            for lit, field, spec, conv in string.Formatter().parse(x.func.value.value):
+                if field is not None and spec and spec != 's':
+                    return 'the format spec :%s' % spec
+        if isinstance(x, ast.Call) and isinstance(x.func, ast.Name) and x.func.id in ('round', 'int', 'trunc', 'floor', 'ceil'):
+            return '%s()' % x.func.id
+    return None
+
+
+def check_forwarding_exact(ix, rep, rule='R-FWD'):
+    """what the user declares on the specification object (`declare_const(name, type, value)`, `declare_var`, `set_var_io_type`, ...) is what the
+    ast receives: between the parameter and the argument of the forwarded call there is no rendering that keeps only part of a number.  The
+    modular form of a specification (constants passed through the API) and its inlined form (the literal in the text) then denote the same value."""
+    spec = ix.find_class('rtamt.spec.abstract_specification', 'AbstractSpecification')
+    n = 0
+    for mname, f in sorted(spec.methods.items()):
+        params = [a.arg for a in f.node.args.args[1:]]
+        if not params:
+            continue
+        for c in ast.walk(f.node):
+            if not (isinstance(c, ast.Call) and isinstance(c.func, ast.Attribute) and ast.unparse(c.func.value) == 'self.ast' and c.func.attr == mname):
+                continue
+            rep.analysed(f)
+            for k, a in enumerate(list(c.args) + [kw.value for kw in c.keywords]):
+                n += 1
+                chain = [a]
+                if isinstance(a, ast.Name):
+                    for st in ast.walk(f.node):
+                        if isinstance(st, ast.Assign) and any(isinstance(t, ast.Name) and t.id == a.id for t in st.targets):
+                            chain.append(st.value)
+                        elif isinstance(st, ast.AugAssign) and isinstance(st.target, ast.Name) and st.target.id == a.id:
+                            chain.append(st.value)
+                why = None
+                for e in chain:
+                    why = why or _lossy_conversion(e)
+                slot = '%s:arg%d' % (mname, k)
+                if why:
+                    rep.fail(rule, f.module.rel, f.qual, slot, '%s() hands `%s` to the ast after passing it through %s: a value with more digits than the rendering keeps arrives changed '
+                             '(2.7182818 -> 2.71828), so a constant declared through the API is no longer the literal it stands for' % (mname, ast.unparse(a), why), c.lineno)
+                else:
+                    rep.ok(rule, f.module.rel, f.qual, slot, 'forwarded without a lossy rendering', c.lineno)
     return n
